@@ -400,7 +400,7 @@ def container_ops(self_move=False, node_forms=True):
         st.tuples(st.just("mcopy"), cref, cref, dpath, st.booleans(), st.booleans(),
                   st.sampled_from(["str", "str", "node_src", "group_dst", "group_dst_name"] if node_forms else ["str"])),
         st.tuples(st.just("move"), cref, cref, dpath))
-    gcn = st.tuples(st.just("gcopy_nometa"), cref, fresh)
+    gcn = st.tuples(st.just("gcopy_nometa"), cref, fresh, st.sampled_from(["", "", "del_original", "del_copy"]))
     return st.one_of(data, data, meta, meta, meta, cpmv, cpmv, gcn, bnd, solo, *extra)
 
 
@@ -665,6 +665,18 @@ class CSession:
             if self.run_all(lambda ti, t: t.mc.copy(src_abs, dst_abs, without_meta=True), fm, "copy", dict(src=src_abs, dst=dst_abs, without_meta=True)):
                 self.classes.add("group_copy_without_meta")
                 self.classes.add("copy_without_meta")
+                then = op[3] if len(op) > 3 else ""
+                if then:  # ... and afterwards one of the two trees goes away again
+                    victim = src_abs if then == "del_original" else dst_abs
+                    if self.after_step:
+                        self.after_step(self, ["mcopy"])
+
+                    def fm2(model):
+                        model.tree.delete(victim)
+                        model.on_delete(victim)
+
+                    self.run_all(lambda ti, t: t.mc.__delitem__(victim), fm2, "del:after-gcopy", dict(path=victim))
+                    self.classes.add("group_copy_without_meta_then_" + then)
         elif kind == "solo":
             self.step([op[1]])
             self.step(list(op[2]))
